@@ -526,9 +526,14 @@ fn main() {
         //      gives the same value as decoding the buffer; exit 3 on a difference
         "enum:stream-chunks" => {
             use libhaystack::encoding::zinc::encode::ToZinc;
-            struct Chunked<'a> { data: &'a [u8], pos: usize, n: usize }
+            struct Chunked<'a> { data: &'a [u8], pos: usize, n: usize, calls: usize, interrupt_every: usize }
             impl<'a> std::io::Read for Chunked<'a> {
                 fn read(&mut self, buf: &mut [u8]) -> std::io::Result<usize> {
+                    self.calls += 1;
+                    // a reader may be interrupted by a signal at any call; std's read_exact retries
+                    if self.interrupt_every != 0 && self.calls % self.interrupt_every == 0 {
+                        return Err(std::io::Error::new(std::io::ErrorKind::Interrupted, "interrupted"));
+                    }
                     let k = self.n.min(buf.len()).min(self.data.len() - self.pos);
                     buf[..k].copy_from_slice(&self.data[self.pos..self.pos + k]);
                     self.pos += k;
@@ -540,13 +545,13 @@ fn main() {
             for v in &all[..all.len() - 1] {
                 let text = v.to_zinc_string().expect("zinc");
                 let want = from_str(&text);
-                for n in [1usize, 2, 3, 7] {
-                    let mut rd = Chunked { data: text.as_bytes(), pos: 0, n };
+                for (n, interrupt_every) in [(1usize, 0usize), (2, 0), (3, 0), (7, 0), (1, 3), (5, 2)] {
+                    let mut rd = Chunked { data: text.as_bytes(), pos: 0, n, calls: 0, interrupt_every };
                     let got = libhaystack::encoding::zinc::decode::parser::Parser::make(&mut rd).and_then(|mut p| p.parse_value());
                     cases += 1;
                     let same = match (&got, &want) { (Ok(a), Ok(b)) => a == b && format!("{a:?}") == format!("{b:?}"), (Err(_), Err(_)) => true, _ => false };
                     if !same {
-                        println!("RESULT enum:stream-chunks text={text:?} chunk={n} from_reader={got:?} from_str={want:?}");
+                        println!("RESULT enum:stream-chunks text={text:?} chunk={n} interrupted every {interrupt_every} calls from_reader={got:?} from_str={want:?}");
                         std::process::exit(3);
                     }
                 }
@@ -603,6 +608,26 @@ fn main() {
                 }
             } }
             println!("RESULT enum:filter-eval {n} filter x record cases agree with the oracle");
+        }
+        // ---- C06 enumerator: every whole-hour offset -12:00..+14:00 and some fractional ones: accepted with the same instant and
+        //      offset, or rejected; exit 3 on a changed instant
+        "enum:rfc3339-offsets" => {
+            let mut texts: Vec<String> = vec![];
+            for h in -12i32..=14 { texts.push(format!("2021-06-01T12:34:56.789{}{:02}:00", if h < 0 { '-' } else { '+' }, h.abs())); }
+            for t in ["2021-06-01T12:34:56Z", "2021-01-15T12:00:00-03:30", "2021-06-19T19:48:23+05:30", "2021-06-19T19:48:23+05:45", "2021-03-28T01:30:00+00:00", "2021-06-01T00:00:00-00:00"] { texts.push(t.to_string()); }
+            let mut accepted = 0;
+            for text in &texts {
+                let want = chrono::DateTime::parse_from_rfc3339(text).expect("chrono accepts the text");
+                if let Ok(d) = DateTime::parse_from_rfc3339(text) {
+                    accepted += 1;
+                    let got = chrono::DateTime::parse_from_rfc3339(&d.to_rfc3339()).expect("re-parse");
+                    if got.timestamp_millis() != want.timestamp_millis() || got.offset() != want.offset() {
+                        println!("RESULT enum:rfc3339-offsets {text} -> {} (instant {} vs {})", d.to_rfc3339(), got.timestamp_millis(), want.timestamp_millis());
+                        std::process::exit(3);
+                    }
+                }
+            }
+            println!("RESULT enum:rfc3339-offsets {} offset texts: {accepted} accepted with the same instant and offset, the others rejected", texts.len());
         }
         // ---- C06: RFC 3339 text -> DateTime keeps the instant (or is rejected); exit 3 = different instant
         "rfc3339" => {
